@@ -150,6 +150,25 @@ func init() {
 		e := x.freshErr("rerr")
 		x.assume(st, And(Le(IntLit(0), n), Le(n, s.Len)))
 		x.havocArgs(fr, st, []Value{s}, nil)
+		if iv, ok := a[0].(VIface); ok {
+			// *io.LimitedReader: reads at most N bytes, decrements N by what it read, and reports
+			// io.EOF (and nothing read) once N is 0. An EOF of the underlying reader is passed on
+			// whatever N is - which is how a truncated body shows.
+			lrT := x.eng.namedType("io", "LimitedReader")
+			if stt, skey := structOf(lrT); stt != nil {
+				for i := 0; i < stt.NumFields(); i++ {
+					if stt.Field(i).Name() != "N" {
+						continue
+					}
+					isLR := Eq(iv.Tag, IntLit(x.eng.typeTag(types.NewPointer(lrT))))
+					key := fieldKey(skey, stt, i)
+					h := x.heapGet(st, key, arrOf(SInt))
+					n0 := Select(h, iv.Val)
+					x.assume(st, Implies(isLR, And(Le(n, Ite(Ge(n0, IntLit(0)), n0, IntLit(0))), Implies(Le(n0, IntLit(0)), Neq(e.Tag, IntLit(0))))))
+					x.heapSet(st, key, x.vc.Name(Ite(isLR, Store(h, iv.Val, Sub(n0, n)), h), "H|lrN"))
+				}
+			}
+		}
 		return VStruct{F: []Value{VTerm{n}, e}}, true
 	}
 	for _, k := range []string{"(io.Reader).Read", "(io.ReadCloser).Read"} {
@@ -225,9 +244,19 @@ func init() {
 	regModel("io.CopyN", copyModel(true))
 	regModel("io.CopyBuffer", copyModel(false))
 	regModel("io.LimitReader", func(x *Exec, fr *Frame, st *State, a []Value, pos token.Pos, rt types.Type) (Value, bool) {
-		r := x.fresh(rt, "limitreader").(VIface)
-		x.vc.Assert(Eq(r.Tag, IntLit(x.eng.typeTag(x.eng.namedPtr("io", "LimitedReader")))))
-		return r, true
+		lrT := x.eng.namedType("io", "LimitedReader")
+		ref := x.newRef(fr)
+		if stt, skey := structOf(lrT); stt != nil {
+			for i := 0; i < stt.NumFields(); i++ {
+				switch stt.Field(i).Name() {
+				case "N":
+					x.storeField(st, ref, stt, skey, i, VTerm{tOf(a[1])})
+				case "R":
+					x.storeField(st, ref, stt, skey, i, a[0])
+				}
+			}
+		}
+		return VIface{IntLit(x.eng.typeTag(types.NewPointer(lrT))), ref}, true
 	})
 }
 
